@@ -5,8 +5,10 @@ package fasthttp
 import (
 	"bytes"
 	"context"
+	"encoding/json"
 	"fmt"
 	"net"
+	"os"
 	"strconv"
 	"strings"
 	"testing"
@@ -47,6 +49,7 @@ type c15conn struct {
 	writeErr []string
 	dialErr  string
 	done     bool
+	opened   bool // the opening steps of the script are done
 	sent     []string
 }
 
@@ -66,6 +69,11 @@ type c15obs struct {
 	dialAfterOK      bool
 	clientsDone      int
 	notes            []string
+	log              []string
+}
+
+func (o *c15obs) ev(f string, a ...any) {
+	o.log = append(o.log, fmt.Sprintf("%v T%d ", mtime.Now().Sub(mcrt.Base), mcrt.CurrentID())+fmt.Sprintf(f, a...))
 }
 
 type c15scn struct {
@@ -127,6 +135,7 @@ func c15body(sc c15scn) func() {
 		s.Handler = func(ctx *RequestCtx) {
 			p := string(ctx.Path())
 			o.started = append(o.started, p)
+			o.ev("handler start %s", p)
 			if o.shutdownCalled {
 				o.startedLate = append(o.startedLate, p)
 				mcrt.Covered("handler-started-during-shutdown")
@@ -148,14 +157,23 @@ func c15body(sc c15scn) func() {
 			}
 			ctx.SetBodyString("ok:" + p)
 			o.running--
+			o.ev("handler end %s", p)
 		}
 		ln := fasthttputil.NewInmemoryListener()
 		mcrt.GoNamed("serve", func() {
 			o.serveErr = s.Serve(ln)
 			o.serveReturned = true
+			o.ev("serve returned")
 		})
+		// set-up is sequential (it is not what the property quantifies over, and free choices at blocking points multiply):
+		// the first client dials once Serve has registered the listener and the worker pool's cleaner has gone to sleep;
+		// client i+1 starts when client i has finished its opening steps (everything before its 'e' / 's' step)
+		mcrt.WaitUntil("serve-ready", func() bool { return len(s.ln) > 0 && mcrt.PendingTimers() > 0 })
 		for ci := range sc.scripts {
 			ci := ci
+			if ci > 0 {
+				mcrt.WaitUntil("prev-client-opened", func() bool { return o.conns[ci-1].opened })
+			}
 			mcrt.GoNamed(fmt.Sprint("client", ci), func() {
 				cc := o.conns[ci]
 				defer func() { cc.done = true; o.clientsDone++ }()
@@ -163,6 +181,7 @@ func c15body(sc c15scn) func() {
 				c, err := ln.DialWithLocalAddr(&net.TCPAddr{IP: net.IPv4(10, 0, 0, byte(1+ci)), Port: 4000 + ci})
 				if err != nil {
 					cc.dialErr = err.Error()
+					cc.opened = true
 					return
 				}
 				rd := func(stop func() bool) {
@@ -183,7 +202,9 @@ func c15body(sc c15scn) func() {
 						for _, p := range st.paths {
 							b = append(b, "GET "+p+" HTTP/1.1\r\nHost: x\r\n\r\n"...)
 						}
-						if _, err := c.Write(b); err != nil {
+						_, err := c.Write(b)
+						o.ev("client%d wrote %v err=%v", ci, st.paths, err)
+						if err != nil {
 							cc.writeErr = append(cc.writeErr, err.Error())
 						} else {
 							cc.sent = append(cc.sent, st.paths...)
@@ -191,8 +212,10 @@ func c15body(sc c15scn) func() {
 					case 'r':
 						rd(func() bool { r, _ := c15responses(cc.buf); return len(r) >= st.n })
 					case 's':
+						cc.opened = true
 						mcrt.WaitUntil("shutdown-called", func() bool { return o.shutdownCalled })
 					case 'e':
+						cc.opened = true
 						rd(func() bool { return false })
 					}
 				}
@@ -212,25 +235,25 @@ func c15body(sc c15scn) func() {
 			}
 			return true
 		}
-		mcrt.GoNamed("shutdown", func() {
-			mcrt.WaitUntil("shutdown-trigger", trig)
-			ctx := context.Background()
-			if sc.ctxTimeout > 0 {
-				c2, cancel := mcctx.WithTimeout(ctx, sc.ctxTimeout)
-				defer cancel()
-				ctx = c2
-			}
-			if o.running > 0 {
-				mcrt.Covered("shutdown-while-handler-running")
-			}
-			o.shutdownCalled = true
-			err := s.ShutdownWithContext(ctx)
-			o.shutdownErr = err
-			o.runningAtReturn = o.running
-			o.serveAtReturn = o.serveReturned
-			o.shutdownReturned = true
-		})
-		mcrt.WaitUntil("shutdown-returned", func() bool { return o.shutdownReturned })
+		// the main thread is the Shutdown caller
+		mcrt.WaitUntil("shutdown-trigger", trig)
+		ctx := context.Background()
+		if sc.ctxTimeout > 0 {
+			c2, cancel := mcctx.WithTimeout(ctx, sc.ctxTimeout)
+			defer cancel()
+			ctx = c2
+		}
+		if o.running > 0 {
+			mcrt.Covered("shutdown-while-handler-running")
+		}
+		o.shutdownCalled = true
+		o.ev("shutdown called")
+		err := s.ShutdownWithContext(ctx)
+		o.shutdownErr = err
+		o.ev("shutdown returned %v", err)
+		o.runningAtReturn = o.running
+		o.serveAtReturn = o.serveReturned
+		o.shutdownReturned = true
 		if o.shutdownErr != nil {
 			mcrt.Covered("shutdown-returned-ctx-error")
 			return // nothing is promised; remaining threads are unwound
@@ -360,8 +383,11 @@ func TestVerif_C15(t *testing.T) {
 	defer r.End()
 	r.Rule("real Server.Serve on an InmemoryListener with 1-2 scripted client connections (idle keep-alive; slow handler waiting for ctx.Done(); pipelined pair; request sent on an idle connection while Shutdown runs) and a thread calling ShutdownWithContext (background / deadline context), MaxConnsPerIP 0/1; " +
 		"all schedules, select choices and timer-first orders up to the deviation bound; oracle when Shutdown returns nil: Serve returned, no handler running, Dial fails, every request whose handler started has its complete 200 response on its connection, every connection was closed by the server (idle ones without waiting), a handler blocked on Done() is woken; non-trivial: executions with >=1 deviation")
-	r.Assume("mcrt shim semantics (litmus-tested)", "sync.Pool modelled as deterministic LIFO", "iteration order of the idleConns map is whatever the Go runtime picks in the run (not enumerated)")
+	r.Assume("mcrt shim semantics (litmus-tested)", "sync.Pool modelled as deterministic LIFO")
 	b := vrt.Pick(r, 1, 2)
+	if v := os.Getenv("C15_BOUND"); v != "" {
+		b, _ = strconv.Atoi(v)
+	}
 	W := func(p ...string) c15step { return c15step{op: 'w', paths: p} }
 	R := func(n int) c15step { return c15step{op: 'r', n: n} }
 	S := c15step{op: 's'}
@@ -386,5 +412,38 @@ func TestVerif_C15(t *testing.T) {
 		scs = append(scs, mcx.Scenario{Name: sc.name, Cfg: mcrt.Config{Bound: b, TimerFirst: true, Horizon: 6000}, Body: c15body(sc), Check: c15check(sc)})
 	}
 	r.Set("preemption_bound", fmt.Sprint(b))
+	if dbg := os.Getenv("C15_DEBUG"); dbg != "" {
+		for _, sc := range scs {
+			if sc.Name != dbg {
+				continue
+			}
+			cfg := sc.Cfg
+			var pre []int
+			if f := os.Getenv("C15_CHOICES"); f != "" {
+				raw, _ := os.ReadFile(f)
+				var a struct {
+					Artefact struct {
+						Choices []int `json:"choices"`
+					} `json:"artefact"`
+				}
+				json.Unmarshal(raw, &a)
+				pre = a.Artefact.Choices
+			}
+			x := mcrt.RunOnce(&cfg, pre, sc.Body)
+			if o, _ := x.UserData.(*c15obs); o != nil {
+				t.Logf("log: %s", strings.Join(o.log, "\n   "))
+			}
+			t.Logf("steps=%d points=%d trace=%v", x.Out.Steps, len(x.Points), x.Trace)
+			for i, p := range x.Points {
+				if p.N > 1 {
+					t.Logf("#%d %c N=%d costs=%v %s", i, p.Kind, p.N, p.Costs, p.Label)
+				}
+			}
+			c, sg, w := sc.Check(x)
+			t.Logf("check: %s | %s | %s | panic=%s", c, sg, w, x.Out.Panic)
+		}
+		r.Eval(1)
+		return
+	}
 	mcx.Run(r, scs)
 }
